@@ -36,10 +36,12 @@ static const Geom GEOMS[] = {
   { 12, 3, 1, 2, 5, 5 },  // 5 segments (thorough)
 };
 static std::map<int, shared_ptr<World>> g_worlds;
-static World& world(int gi)
+// one world per (geometry, projector symmetries on/off): the explicit P is taken from the matrix as the reconstruction uses it
+static World& world(int gi, int sym)
 {
-  auto it = g_worlds.find(gi);
-  if (it == g_worlds.end()) it = g_worlds.emplace(gi, make_world(GEOMS[gi])).first;
+  const int key = gi * 2 + (sym ? 1 : 0);
+  auto it = g_worlds.find(key);
+  if (it == g_worlds.end()) it = g_worlds.emplace(key, make_world(GEOMS[gi], sym ? 1 : 0)).first;
   return *it->second;
 }
 
@@ -196,7 +198,7 @@ static void run_cfg(vmc::Ctx& ctx, const Cfg& c)
 {
   const std::string kase = cfg_str(c);
   ctx.current("C07", kase);
-  World& w = world(c.g);
+  World& w = world(c.g, c.sym);
   const Model m = make_model(w, c.norm, c.add, c.data);
   const int K = 3 * c.N;
   const std::string cls = cfg_class(c);
@@ -272,9 +274,12 @@ static void run_cfg(vmc::Ctx& ctx, const Cfg& c)
                   ctx.violation("clause=update_formula;" + cls + ";uss=" + vmc::str(c.uss) + ";norm=" + vmc::str(c.norm) + ";add=" + vmc::str(c.add), kase + ";k=" + vmc::str(k),
                                 "sub-iteration " + vmc::str(k) + " (subset " + vmc::str(S) + "), voxel " + vmc::str(j) + ": STIR " + vmc::str(U[k - 1][j]) + " reference " + vmc::str(ref[j])
                                     + " (previous value " + vmc::str(prev[j]) + ", subset sensitivity " + vmc::str(sens[S][j]) + ")");
+                  if (getenv("VMC_DUMP")) { for (size_t q = 0; q < w.nv; ++q) fprintf(stderr, "vox %zu prev %g stir %g ref %g sens %g pg %g\n", q, prev[q], (double)U[k - 1][q], ref[q], sens[S][q], c.prior ? pg[q] : 0.0); }
                   k = K + 1; break;
                 }
-              if (sens[S][j] <= 0 && U[k - 1][j] != 0)
+              // (with the 'minimum relative change' option the update factor of such a voxel is clamped to >= 0.5 from the second
+              //  sub-iteration on, which the formula comparison above models; the plain statement applies without that option)
+              if (sens[S][j] <= 0 && U[k - 1][j] != 0 && (!c.rc || k == 1))
                 { ctx.violation("clause=zero_where_no_sensitivity;" + cls, kase + ";k=" + vmc::str(k), "voxel " + vmc::str(j) + " has zero subset sensitivity but value " + vmc::str(U[k - 1][j])); k = K + 1; break; }
             }
         }
